@@ -351,7 +351,7 @@ def main():
     # canaries
     if not run.args.no_canaries:
         sub = [('diff', k) for k in range(24)] + [('corpus', n) for n in ('laplace(1)', 'laplace(2)', 'lap_hess(1)', 'lap_hess(2)', 'hess_field(2)', 'quotient(1)', 'quotient(2)',
-                                       'convdiff(2)', 'sincos(1)', 'sincos(2)', 'mixed_second(2)', 'gradf(2)')] + [s_ for s_ in specs if s_[0] == 'rand'][:16]
+                                       'convdiff(2)', 'sincos(1)', 'sincos(2)', 'mixed_second(2)', 'gradf(2)', 'folds(1)', 'folds(2)')]
         canaries = [
             ('JacInv transposed in physical gradient', 'return inner(self.JacInv[:, k], grad(e.without_derivs(), parametric=True))',
              'return inner(self.JacInv[k, :], grad(e.without_derivs(), parametric=True))'),
